@@ -574,6 +574,24 @@ def produce(path, files=(), sources=(), terms=(), max_units=800, shapes=()):
     return n
 
 
+def load_outcomes(path_in):
+    """from_json_data on every document of a producer file: [[id, outcome]] where the outcome is the exception type
+    or a fingerprint of the returned data (C12: the same call on the same argument, early and late in a process)"""
+    from code_data import CodeData
+    from .api import deep_fp
+
+    out = []
+    for line in open(path_in):
+        d = json.loads(line)
+        try:
+            r = CodeData.from_json_data(d["raw"])
+            o = "ok:" + str(hash(json.dumps(deep_fp(r), sort_keys=True)))
+        except BaseException as ex:  # noqa
+            o = "exc:" + type(ex).__name__
+        out.append([d["id"], o])
+    return out
+
+
 def consume(path_in, path_out, runs):
     """runs: [{ops: [...]}]; every document of path_in through every operation sequence"""
     from code_data import CodeData
